@@ -149,6 +149,9 @@ func checkC21(c *Ctx) string {
 
 	checkMetaUpdateNotDiscarded(c, "C21.5 K4 an admin operation does not discard changes already recorded in its metaUpdate")
 	checkFkRenumberCoversAllLinks(c, "C21.6 K4c foreign-key positions are renumbered for every link in both directions")
+	checkBackLinkLiteralsComplete(c, "C21.7 K9 a back link is recorded with all of its fields")
+	checkBackLinkStoresIdentified(c, "C21.8 K4c an existing back link is changed only after it was identified")
+	checkEnsureLinksOnlyNewIndexes(c, "C21.9 K4c ensure links only the indexes it adds")
 	checkRenameCoversNameFields(c, "C21.4 K18 a column rename rewrites every column-name field of every index")
 	return "Static shape of schema changes: the exported Database methods that apply a Meta admin operation (discovered: " + strings.Join(names, ", ") + ") take the schema lock first and release it with a defer; " +
 		"every admin operation is applied to the Meta of the state handed to an UpdateState callback that is itself nested in a RunExclusive/RunEndExclusive callback, and its result is what is stored to state.Meta; " +
